@@ -77,7 +77,7 @@ def main(claimed):
          {"name":"convsim","path":"internal/convsim","serves_properties":[p for p in ["C04","C07"] if p in claimed],"kind_free_text":"deterministic simulation: generated converters under a seeded cooperative scheduler and value-keyed failing custom functions"}],
        "checks":checks,
        "not_applicable":na,
-       "notes":"Technique family: deterministic simulation with fault injection only. Exit 2 = infrastructure trouble (never a violation). Genuine defects found: F1-F28 (DESIGN.md section 7). Repaired ones are unguarded 'fix:' commits in /repo, listed in known-findings.json with status fixed; F9, F11, F19, F20, F22 are known findings (status known) printed as KNOWN-FINDING lines."}
+       "notes":"Technique family: deterministic simulation with fault injection only. Exit 2 = infrastructure trouble (never a violation). Genuine defects found: F1-F29 plus regressions of their repairs (DESIGN.md section 7). Repaired ones are unguarded 'fix:' commits in /repo, listed in known-findings.json with status fixed; F9, F11, F19, F20, F22 are known findings (status known) printed as KNOWN-FINDING lines."}
     json.dump(m,open("/verif/MANIFEST.json","w"),indent=1)
     print("claimed:",[c["property_id"] for c in checks])
 
